@@ -69,6 +69,10 @@ func checkNumbersIn(value *types.Item, name string) error {
 		}
 	}
 
+	if err := checkSetMembers(value, name); err != nil {
+		return err
+	}
+
 	for _, element := range value.L {
 		if err := checkNumbersIn(element, name); err != nil {
 			return err
@@ -77,6 +81,42 @@ func checkNumbersIn(value *types.Item, name string) error {
 
 	for _, member := range value.M {
 		if err := checkNumbersIn(member, name); err != nil {
+			return err
+		}
+	}
+
+	return nil
+}
+
+// checkSetMembers refuses a set that holds a member twice: two equal strings or binaries, or two
+// numerals of one value ("1" and "1.0")
+func checkSetMembers(value *types.Item, name string) error {
+	seen := map[string]bool{}
+
+	note := func(member string) error {
+		if seen[member] {
+			return fmt.Errorf("%w: input collection contains duplicates; field %q", ErrInvalidAtrributeValue, name)
+		}
+
+		seen[member] = true
+
+		return nil
+	}
+
+	for _, member := range value.SS {
+		if err := note(types.StringValue(member)); err != nil {
+			return err
+		}
+	}
+
+	for _, member := range value.NS {
+		if err := note(encodeNumberKey(types.StringValue(member))); err != nil {
+			return err
+		}
+	}
+
+	for _, member := range value.BS {
+		if err := note(string(member)); err != nil {
 			return err
 		}
 	}
